@@ -25,6 +25,7 @@ MODELS = [
     ("MC_hist", {"Family": '"wb"', "Tier": '"quick"', "Export": "FALSE", "Defects": '{"no304_writeback"}'}, {"C08"}),
     ("MC_hist", {"Family": '"wb"', "Tier": '"quick"', "Export": "FALSE", "Defects": '{"bg_drops_refs"}'}, {"C08"}),
     ("MC_hist", {"Family": '"inval"', "Tier": '"quick"', "Export": "FALSE", "Defects": '{"four_unsafe_methods"}'}, {"C07"}),
+    ("MC_hist", {"Family": '"cond"', "Tier": '"quick"', "Export": "FALSE", "Defects": '{"foreign_304_freshens"}'}, {"C02"}),
     ("MC_store", {"Family": '"store"', "Tier": '"quick"', "Export": "FALSE", "Defects": '{"store_304"}'}, {"C06"}),
     ("MC_store", {"Family": '"store"', "Tier": '"quick"', "Export": "FALSE", "Defects": '{"oic_bypass_forwards"}'}, {"C18"}),
     ("MC_conc", {"Tier": '"quick"', "Export": "FALSE", "Defects": '{"bg_shares_response"}'}, {"C16"}),
@@ -66,7 +67,8 @@ REVERTS = [
     ("an encrypted fscache entry is bound", ["C17"]), ("only-if-cached with max-age=0", ["C11"]),
     ("fscache lists keys relative", ["C14"]), ("the background revalidation of a stale-while-revalidate serve is built", ["C20"]),
     ("only-if-cached is honoured for requests the cache never answers", ["C18"]), ("index references keep the exact bytes", ["C19"]), ("fscache.Set writes from its own copy", ["C15"]), ("a 304 that answers the client's own conditional request is handed", ["C02"]),
-    ("the request header fields nominated by Vary are looked up", ["C04"]),
+    ("the request header fields nominated by Vary are looked up", ["C04"]), ("all Vary field lines form the list", ["C04"]),
+    ("the request's Cache-Control is read whatever", ["C02"]),
 ]
 
 
@@ -159,6 +161,9 @@ def seeded(only=None):
         if not os.path.exists(meta_p) or (only and name not in only):
             continue
         meta = json.load(open(meta_p))
+        if meta.get("expect_missed"):
+            print("n/a  seeded %-28s not expected to be flagged: %s" % (name, meta["expect_missed"][:90]))
+            continue
         wt = scratch_worktree("seed-" + name)
         try:
             p = subprocess.run(["git", "-C", wt, "apply", os.path.join(root, name, "patch.diff")], capture_output=True, text=True)
